@@ -13,6 +13,7 @@ import SameVerif.Model.Link
 import SameVerif.Spec.OracleSig
 import SameVerif.Model.Receiver
 import SameVerif.Model.Iterator
+import SameVerif.Model.Builder
 import Driver.Util
 /-
   samemodel: the executable side of the correspondence check.
@@ -806,6 +807,10 @@ def handleSpec (name : String) (ins ans : List String) : String :=
         | _, _ => "FAIL unparsable"
       | _, _ => "FAIL unparsable"
     | _ => "bad-op"
+  | "spec.c17.run", _label :: _op =>
+    match ans with
+    | "ok" :: _ => "ok"
+    | _ => s!"FAIL a configuration inside the documented ranges did not build and run: {" ".intercalate ans}"
   | "spec.c18.state", [_label] =>
     verdict (ans == ["-"]) s!"state after reset() differs from a freshly built receiver in a live field: {" ".intercalate ans}"
   | "spec.c18.events", [_label] =>
@@ -877,6 +882,13 @@ def handleOp (args : List String) : String :=
     match unhex seed, pos.toNat? with
     | some seed, some pos => s!"{(hdrnbhd seed pos).toNat}"
     | _, _ => "bad-op"
+  | ["cfg.derive", rate, micro, en, ff, fb] =>
+    match rate.toNat?, micro.toNat?, ff.toNat?, fb.toNat? with
+    | some rate, some micro, some ff, some fb =>
+      let c : BCfg := ⟨rate, micro, en == "1", ff, fb⟩
+      if guardsHold c then s!"dc={dcLen c} taps={demodTaps c} ff={(eqOrders c).1} fb={(eqOrders c).2}"
+      else "PANIC: guard"
+    | _, _, _, _ => "bad-op"
   | ["iter.run", _n, ref, sched] =>
     match parseRef ref, parseSched sched with
     | some ref, some sched => iterRun ref sched
